@@ -86,6 +86,8 @@ class C01Monitor(hist.Monitor):
         rec.evals["C01.file-entities"] += 1
         for p in sorted(want - have):
             rec.fail("C01.file-missing", op="close", cls=p.split("/")[0], detail=f"{p} is in the model but not in the flat container", counted=True)
+        for p in sorted(have - want - eng.parent_removed):
+            rec.fail("C01.file-extra", op="close", cls=p.split("/")[0], detail=f"{p} is in the flat container but the API history removed it or never created it (it can be resurrected by uid reuse)", counted=True)
         if len(live) >= 3 and len(eng.log) >= 1:
             rec.nontrivial = True
 
